@@ -112,12 +112,10 @@ func (g *gen) resolveType(env *specEnv, name string) types.Type {
 	pkg := env.pkg
 	if i := strings.LastIndex(name, "."); i >= 0 {
 		pn, tn := name[:i], name[i+1:]
-		for _, p := range g.e.byPkg {
-			if p.Types != nil && (p.Types.Name() == pn || p.PkgPath == pn || shortPkg(p.PkgPath) == pn) {
-				if o := p.Types.Scope().Lookup(tn); o != nil {
-					if t, ok := o.(*types.TypeName); ok {
-						return t.Type()
-					}
+		if p := g.findPkg(env, pn); p != nil {
+			if o := p.Scope().Lookup(tn); o != nil {
+				if t, ok := o.(*types.TypeName); ok {
+					return t.Type()
 				}
 			}
 		}
@@ -159,13 +157,6 @@ func (g *gen) lookupName(env *specEnv, name string) (Val, error) {
 		if v, ok := env.vars[name+"$result"]; ok {
 			return v, nil
 		}
-		if dr, ok := g.debugVals[name]; ok {
-			v := g.val(dr.v)
-			if dr.isAddr {
-				return g.load(v, dr.v.Type().Underlying().(*types.Pointer).Elem()), nil
-			}
-			return v, nil
-		}
 		for _, fv := range fn.FreeVars {
 			if fv.Name() == name {
 				pv := g.val(fv)
@@ -181,6 +172,13 @@ func (g *gen) lookupName(env *specEnv, name string) (Val, error) {
 					}
 				}
 			}
+		}
+		if dr, ok := g.debugVals[name]; ok {
+			v := g.val(dr.v)
+			if dr.isAddr {
+				return g.load(v, dr.v.Type().Underlying().(*types.Pointer).Elem()), nil
+			}
+			return v, nil
 		}
 		// values named through phi comments anywhere in the function (latest definition wins)
 		var found *Val
@@ -343,11 +341,14 @@ func (g *gen) evalSpec1(env *specEnv, e *SExpr) (Val, error) {
 			t := g.equal(a, b)
 			if a.Sort == "Slice" {
 				// in specifications a nil slice is the full zero value (values in code are well-formed anyway)
-				other := a
-				if strings.Contains(a.T, "mk_slice 0 0 0 0") {
-					other = b
+				switch {
+				case a.T == "(mk_slice 0 0 0 0)":
+					t = and(eq(app("s_base", b.T), "0"), eq(app("s_len", b.T), "0"), eq(app("s_cap", b.T), "0"))
+				case b.T == "(mk_slice 0 0 0 0)":
+					t = and(eq(app("s_base", a.T), "0"), eq(app("s_len", a.T), "0"), eq(app("s_cap", a.T), "0"))
+				default:
+					t = eq(a.T, b.T)
 				}
-				t = and(eq(app("s_base", other.T), "0"), eq(app("s_len", other.T), "0"), eq(app("s_cap", other.T), "0"))
 			}
 			if e.Op == "!=" {
 				t = not(t)
@@ -404,11 +405,9 @@ func (g *gen) evalSel(env *specEnv, e *SExpr) (Val, error) {
 	if e.Args[0].Op == "id" {
 		if _, err := g.lookupName(env, e.Args[0].Name); err != nil {
 			pn := e.Args[0].Name
-			for _, p := range g.e.byPkg {
-				if p.Types != nil && p.Types.Name() == pn {
-					if o := p.Types.Scope().Lookup(e.Name); o != nil {
-						return g.objVal(o)
-					}
+			if p := g.findPkg(env, pn); p != nil {
+				if o := p.Scope().Lookup(e.Name); o != nil {
+					return g.objVal(o)
 				}
 			}
 			return Val{}, err
@@ -593,6 +592,66 @@ func (g *gen) evalCall(env *specEnv, e *SExpr) (Val, error) {
 			return Val{}, fmt.Errorf("unknown type %q", e.Args[1].Lit)
 		}
 		return boolVal(eq(app("i_tag", x.T), fmt.Sprint(g.st.tagOf(t)))), nil
+	case "the":
+		// the("T"): the unique object of struct type T allocated by this function
+		if len(e.Args) != 1 || e.Args[0].Op != "str" {
+			return Val{}, fmt.Errorf("the(\"T\") expected")
+		}
+		var found *Val
+		n := 0
+		for _, b := range g.fn.Blocks {
+			for _, ins := range b.Instrs {
+				if a, ok := ins.(*ssa.Alloc); ok {
+					pt := a.Type().(*types.Pointer).Elem()
+					if nt, ok := types.Unalias(pt).(*types.Named); ok && nt.Obj().Name() == e.Args[0].Lit {
+						n++
+						if v, ok := g.vals[a]; ok {
+							vv := v
+							found = &vv
+						}
+					}
+				}
+			}
+		}
+		if n != 1 || found == nil {
+			return Val{}, fmt.Errorf("the(%q): %d allocations of that type in %s", e.Args[0].Lit, n, g.key)
+		}
+		return *found, nil
+	case "cast":
+		if len(e.Args) != 2 || e.Args[1].Op != "str" {
+			return Val{}, fmt.Errorf("cast(x, \"T\") expected")
+		}
+		x, err := g.evalSpec1(env, e.Args[0])
+		if err != nil {
+			return Val{}, err
+		}
+		t := g.resolveType(env, e.Args[1].Lit)
+		if t == nil {
+			return Val{}, fmt.Errorf("unknown type %q", e.Args[1].Lit)
+		}
+		if x.Sort == "Iface" && g.st.sortOf(t) != "Iface" {
+			s := g.st.sortOf(t)
+			return Val{T: g.unbox(app("i_val", x.T), s), Sort: s, Typ: t}, nil
+		}
+		x.Typ = t
+		return x, nil
+	case "emitted":
+		if len(e.Args) != 1 || e.Args[0].Op != "id" {
+			return Val{}, fmt.Errorf("emitted(logname) expected")
+		}
+		return intVal(g.heapGet("LOG|"+e.Args[0].Name+"|n", "Int")), nil
+	case "emittedArg":
+		// emittedArg(log, argIndex, recordIndex, "sortOrType")
+		if len(e.Args) != 4 || e.Args[0].Op != "id" || e.Args[1].Op != "int" || e.Args[3].Op != "str" {
+			return Val{}, fmt.Errorf("emittedArg(log, k, i, \"T\") expected")
+		}
+		i, err := g.evalSpec1(env, e.Args[2])
+		if err != nil {
+			return Val{}, err
+		}
+		t := g.resolveType(env, e.Args[3].Lit)
+		s := g.st.sortOf(t)
+		return Val{T: app("select", g.heapGet("LOG|"+e.Args[0].Name+"|"+e.Args[1].Lit, arr("Int", s)), i.T), Sort: s, Typ: t}, nil
 	case "unbox":
 		// unbox(x, "T"): payload of interface value x read as a T
 		if len(e.Args) != 2 || e.Args[1].Op != "str" {
@@ -612,6 +671,19 @@ func (g *gen) evalCall(env *specEnv, e *SExpr) (Val, error) {
 	args, err := g.evalArgs(env, e.Args)
 	if err != nil {
 		return Val{}, err
+	}
+	if strings.HasPrefix(e.Name, "$") {
+		gd := g.e.ghosts[e.Name]
+		if gd == nil {
+			return Val{}, fmt.Errorf("undeclared ghost map %s", e.Name)
+		}
+		if len(args) != 1 {
+			return Val{}, fmt.Errorf("%s(key) expected", e.Name)
+		}
+		ks, _ := binderSort(g, env, Binder{Type: gd.KeyType})
+		vs, vt := binderSort(g, env, Binder{Type: gd.ValType})
+		k := g.ghostKey(args[0], ks)
+		return Val{T: app("select", g.heapGet("G|"+e.Name, arr(ks, vs)), k), Sort: vs, Typ: vt}, nil
 	}
 	argn := func(n int) error {
 		if len(args) != n {
@@ -710,6 +782,15 @@ func (g *gen) evalCall(env *specEnv, e *SExpr) (Val, error) {
 		if len(sf.Params) != len(args) {
 			return Val{}, fmt.Errorf("%s expects %d arguments", e.Name, len(sf.Params))
 		}
+		// implicit conversion of a concrete pointer to an interface-typed parameter (as Go does at a call)
+		for i, p := range sf.Params {
+			ps, pt := binderSort(g, &specEnv{pkg: g.specPkg(sf, env)}, p)
+			if ps == "Iface" && args[i].Sort == "Int" && args[i].Typ != nil {
+				if _, isPtr := args[i].Typ.Underlying().(*types.Pointer); isPtr {
+					args[i] = Val{T: app("mk_iface", fmt.Sprint(g.st.tagOf(args[i].Typ)), args[i].T), Sort: "Iface", Typ: pt}
+				}
+			}
+		}
 		if sf.Body == nil {
 			var argSorts, ts []string
 			for i, p := range sf.Params {
@@ -737,7 +818,7 @@ func (g *gen) evalCall(env *specEnv, e *SExpr) (Val, error) {
 		if sf.Opaque {
 			return g.opaqueCall(env, sf, args)
 		}
-		sub := &specEnv{vars: map[string]Val{}, st: env.st, old: env.old, fn: nil, pkg: env.pkg, depth: env.depth + 1, calleeMode: true}
+		sub := &specEnv{vars: map[string]Val{}, st: env.st, old: env.old, fn: nil, pkg: g.specPkg(sf, env), depth: env.depth + 1, calleeMode: true}
 		// quantifier-bound variables of the caller must stay visible inside bodies only through arguments
 		for i, p := range sf.Params {
 			a := args[i]
@@ -944,7 +1025,7 @@ func (g *gen) opaqueCall(env *specEnv, sf *SpecFunc, args []Val) (Val, error) {
 			ptypes = append(ptypes, t)
 		}
 		mk := func(names []string) *specEnv {
-			sub := &specEnv{vars: map[string]Val{}, pkg: env.pkg, depth: env.depth + 1, calleeMode: true}
+			sub := &specEnv{vars: map[string]Val{}, pkg: g.specPkg(sf, env), depth: env.depth + 1, calleeMode: true}
 			for i, p := range sf.Params {
 				sub.vars[p.Name] = Val{T: names[i], Sort: psorts[i], Typ: ptypes[i]}
 			}
@@ -1005,4 +1086,89 @@ func (g *gen) opaqueCall(env *specEnv, sf *SpecFunc, args []Val) (Val, error) {
 		ts = append(ts, g.heapGet(k, g.heapSort[k]))
 	}
 	return Val{T: app(def.name, ts...), Sort: def.ret, Typ: def.rtyp}, nil
+}
+
+// specPkg: names inside a spec function body resolve in the package that defines it.
+func (g *gen) specPkg(sf *SpecFunc, env *specEnv) *types.Package {
+	if sf.Pkg != "" {
+		if p, ok := g.e.byPkg[repoMod+"/"+sf.Pkg]; ok && p.Types != nil {
+			return p.Types
+		}
+	}
+	return env.pkg
+}
+
+// ghostKey coerces a key value to the declared key sort of a ghost map (pointers into interfaces and back).
+func (g *gen) ghostKey(v Val, ks string) string {
+	if v.Sort == ks {
+		return v.T
+	}
+	if ks == "Int" && v.Sort == "Iface" {
+		return app("i_val", v.T)
+	}
+	if ks == "Iface" && v.Sort == "Int" && v.Typ != nil {
+		return app("mk_iface", fmt.Sprint(g.st.tagOf(v.Typ)), v.T)
+	}
+	return v.T
+}
+
+func (g *gen) applySets(env *specEnv, ctr *Contract) {
+	for _, st := range ctr.Sets {
+		gd := g.e.ghosts[st.Name]
+		if gd == nil {
+			g.contractErr("sets", st.Name, fmt.Errorf("undeclared ghost map"))
+			continue
+		}
+		k, err := g.evalSpec(env, st.Key)
+		if err != nil {
+			g.contractErr("sets", st.Name, err)
+			continue
+		}
+		v, err := g.evalSpec(env, st.Value)
+		if err != nil {
+			g.contractErr("sets", st.Name, err)
+			continue
+		}
+		ks, _ := binderSort(g, env, Binder{Type: gd.KeyType})
+		vs, _ := binderSort(g, env, Binder{Type: gd.ValType})
+		key := "G|" + st.Name
+		g.heapSet(key, arr(ks, vs), app("store", g.heapGet(key, arr(ks, vs)), g.ghostKey(k, ks), v.T))
+	}
+}
+
+// findPkg resolves a package qualifier deterministically: the current package's own imports first,
+// then the repository's packages, then the lexicographically smallest path with that name.
+func (g *gen) findPkg(env *specEnv, pn string) *types.Package {
+	if env != nil && env.pkg != nil {
+		if env.pkg.Name() == pn {
+			return env.pkg
+		}
+		for _, imp := range env.pkg.Imports() {
+			if imp.Name() == pn || imp.Path() == pn {
+				return imp
+			}
+		}
+	}
+	var best *types.Package
+	for _, p := range g.e.byPkg {
+		if p.Types == nil {
+			continue
+		}
+		if p.Types.Name() != pn && p.PkgPath != pn && shortPkg(p.PkgPath) != pn {
+			continue
+		}
+		if best == nil {
+			best = p.Types
+			continue
+		}
+		bRepo := strings.HasPrefix(best.Path(), repoMod)
+		pRepo := strings.HasPrefix(p.PkgPath, repoMod)
+		switch {
+		case pRepo && !bRepo:
+			best = p.Types
+		case pRepo == bRepo && (len(p.PkgPath) < len(best.Path()) || (len(p.PkgPath) == len(best.Path()) && p.PkgPath < best.Path())):
+			best = p.Types
+		}
+	}
+	return best
 }
